@@ -156,6 +156,18 @@ func runCase(c *Case) ([]F, map[string]interface{}) {
 	obs["sch"] = desc.Coq()
 	obs["isch"] = isch.Coq()
 	obs["types"] = len(desc.Defs)
+	// the built schema with everything introspection prints (Go map entries shuffled), and what it printed
+	xs := gqlty.WalkX(vh.NewRng(c.Seed^0x5bd1e995), schema.Query, schema.Mutation)
+	var top struct {
+		Schema struct {
+			Types interface{} `json:"types"`
+		} `json:"__schema"`
+	}
+	if err := json.Unmarshal(isJSON, &top); err == nil && xs.Safe() && gqlty.CoqStringSafe(string(isJSON)) {
+		obs["x"] = xs.Coq()
+		obs["itypes"] = vh.CoqJSON(top.Schema.Types)
+	}
+	var resps []string
 
 	if c.QSeed != 0 {
 		r = vh.NewRng(c.QSeed)
@@ -306,6 +318,11 @@ func runCase(c *Case) ([]F, map[string]interface{}) {
 			continue
 		}
 		cf.ObjectRoot(root, op.SelectionSet, obj)
+		if term, terr := gqlty.DocToCoq(doc); terr == nil && gqlty.CoqStringSafe(text) && !clash {
+			// the response goes to the model's conformance check against the schema the model reads from the
+			// printed introspection JSON (an alias shared by different fields is the known finding)
+			resps = append(resps, fmt.Sprintf("(%s, %s)", term, gqlty.ResponseCoq(resp)))
+		}
 		seen := map[string]bool{}
 		for _, v := range cf.Out {
 			if !seen[v.Class] {
@@ -320,6 +337,7 @@ func runCase(c *Case) ([]F, map[string]interface{}) {
 		obs["executed"] = true
 	}
 	obs["queries"] = qterms
+	obs["resps"] = resps
 	obs["samples"] = samples
 	return fs, obs
 }
@@ -392,6 +410,8 @@ func main() {
 	}
 	results := gqlty.RunIsolated(len(cases), workers, o.Out, 10*time.Minute)
 	var terms []string
+	scalars := scalarTable(o.Repo)
+	nResp := 0
 	for idx := range cases {
 		c := &cases[idx]
 		run.LogCase(idx, c)
@@ -437,19 +457,33 @@ func main() {
 				qs = append(qs, x.(string))
 			}
 		}
-		terms = append(terms, fmt.Sprintf("(%d, mk14 %s %s %s)", idx, sch, isch, vh.CoqList(qs)))
+		x, _ := res.Obs["x"].(string)
+		itypes, _ := res.Obs["itypes"].(string)
+		if x == "" || itypes == "" {
+			run.Hist("introspection-json-not-printable-as-coq-term")
+			continue
+		}
+		var rs []string
+		if l, ok := res.Obs["resps"].([]interface{}); ok {
+			for _, e := range l {
+				rs = append(rs, e.(string))
+			}
+		}
+		nResp += len(rs)
+		terms = append(terms, fmt.Sprintf("(%d, mk14 %s %s %s %s %s %s %s)", idx, sch, isch, vh.CoqList(qs), x, itypes, vh.CoqList(rs), scalars))
 	}
 	if o.Search != "" {
 		run.Finish()
 		return
 	}
-	const shard = 40
+	run.Histogram["responses-checked-by-the-model"] = nResp
+	const shard = 20
 	for s := 0; s < len(terms); s += shard {
 		end := s + shard
 		if end > len(terms) {
 			end = len(terms)
 		}
-		run.WriteCasesV(fmt.Sprintf("cases_%d.v", s), []string{"Lib.Json", "GqlTyping.Types", "GqlTyping.Parse", "GqlTyping.Typing", "GqlTyping.Check14"}, "",
+		run.WriteCasesV(fmt.Sprintf("cases_%d.v", s), []string{"Lib.Json", "GqlTyping.Types", "GqlTyping.Parse", "GqlTyping.Typing", "GqlTyping.Introspect", "GqlTyping.Check14"}, "",
 			"mismatches_c14", 0, terms[s:end])
 	}
 	run.Finish()
